@@ -243,8 +243,52 @@ inductive TEHttp
   deriving DecidableEq, Repr, Inhabited
 
 namespace TE
-/-- `strings.Split` -/
-def split (s sep : String) : List String := s.splitOn sep
+/-- `strings.Split` on character lists for a one-character separator: the pieces between the occurrences of `c` (never empty:
+    `n` occurrences give `n + 1` pieces) -/
+def splitChars (c : Char) : List Char → List (List Char)
+  | [] => [[]]
+  | x :: xs =>
+    if x = c then [] :: splitChars c xs
+    else match splitChars c xs with
+      | h :: t => (x :: h) :: t
+      | [] => [[x]]
+/-- `strings.Split`: for a one-character separator (the only kind the token-exchange code uses) the list function above, which the
+    C15 proofs reason about (deep4: `String.splitOn` is opaque to proofs; both agree, see the `example`s in Proofs/C15Parse.lean) -/
+def split (s sep : String) : List String :=
+  match sep.toList with
+  | [c] => (splitChars c s.toList).map String.ofList
+  | _ => s.splitOn sep
+/-- first position (in characters) at which `sep` starts in `l`, counted from `i` -/
+def indexFrom (sep : List Char) : List Char → Nat → Option Nat
+  | [], i => if sep.isEmpty then some i else none
+  | x :: xs, i => if sep.isPrefixOf (x :: xs) then some i else indexFrom sep xs (i + 1)
+/-- last such position -/
+def lastIndexFrom (sep : List Char) : List Char → Nat → Option Nat
+  | [], i => if sep.isEmpty then some i else none
+  | x :: xs, i =>
+    match lastIndexFrom sep xs (i + 1) with
+    | some j => some j
+    | none => if sep.isPrefixOf (x :: xs) then some i else none
+/-- `strings.Index` / `strings.LastIndex` (-1 = absent). Positions are counted in CHARACTERS, Go's in bytes: the translated code uses
+    them only to cut the same string (`s[:i]`, `s[i+len(sep):]`) around an ASCII separator, where both readings name the same pieces -/
+def index (s sep : String) : Int := match indexFrom sep.toList s.toList 0 with | some i => i | none => -1
+def lastIndex (s sep : String) : Int := match lastIndexFrom sep.toList s.toList 0 with | some i => i | none => -1
+/-- `s[:n]`, `s[n:]`, `s[n:m]` on strings (FuncSpec.StrSlices) -/
+def sliceTo (s : String) (n : Int) : String := String.ofList (s.toList.take n.toNat)
+def sliceFrom (s : String) (n : Int) : String := String.ofList (s.toList.drop n.toNat)
+def slice (s : String) (n m : Int) : String := String.ofList ((s.toList.take m.toNat).drop n.toNat)
+/-- `strings.Cut` -/
+def cut (s sep : String) : String × String × Bool :=
+  match indexFrom sep.toList s.toList 0 with
+  | some i => (String.ofList (s.toList.take i), String.ofList (s.toList.drop (i + sep.toList.length)), true)
+  | none => (s, "", false)
+/-- `strings.SplitN(s, sep, 2)`-style: at most `n` pieces, the last one unsplit (n ≥ 1; one-character separators) -/
+def splitN (s sep : String) (n : Int) : List String :=
+  let all := split s sep
+  if n ≤ 0 || all.length ≤ n.toNat then all
+  else all.take (n.toNat - 1) ++ [sep.intercalate (all.drop (n.toNat - 1))]
+/-- `strings.Count` for a one-character separator -/
+def count (s sep : String) : Int := (split s sep).length - 1
 /-- `CreateBearerToken` / `CreateJWT`: symbolic, never empty -/
 def mintAccess (tt : Nat) (id subject : String) : String := (if tt == 1 then "jwt-at(" else "at(") ++ id ++ ":" ++ subject ++ ")"
 end TE
